@@ -12,8 +12,15 @@ theorem about BOTH models talking to each other, for every file, segment length,
 lost tile, header configuration and checksum type: `C03_end_to_end_single_loss` (the sender's run,
 one File Data PDU lost on the link, the receiver's NAK for exactly that range, the sender's answer —
 exactly the lost PDU —, verification, the closing handshake, both idle, file byte-identical, one
-successful Transaction-Finished indication on each side).  Proved as whole-run theorems about the
-receiver model: `C03_single_loss_recovery` (any one File Data PDU but the last never arrives: exactly one NAK
+successful Transaction-Finished indication on each side); `C03_end_to_end_eof_loss` (the EOF PDU is
+lost: the sender's timer expires, the identical EOF is re-sent, the transfer closes);
+`C03_end_to_end_ack_eof_loss` (the ACK (EOF) is lost: the sender takes the Finished PDU as the proof
+that its EOF arrived — no timer needed); `C03_closing_finished_lost` and
+`C03_closing_finished_ack_lost` (the Finished PDU or its ACK is lost in the closing handshake: the
+receiver's timer expires, the identical Finished PDU is re-sent; stated from any state in which the
+sender has sent everything and the receiver has acknowledged the EOF, so they compose with each of
+the runs above — one fault before the closing handshake, one in it).  Proved as whole-run theorems
+about the receiver model: `C03_single_loss_recovery` (any one File Data PDU but the last never arrives: exactly one NAK
 with exactly the missing range, the retransmission completes the file, verification, Finished PDU,
 idle, file byte-identical) and `C03_tail_loss_recovery` (everything from some offset on is missing at
 the EOF).  Proved are the safety half
@@ -1293,6 +1300,566 @@ theorem C03_end_to_end_single_loss (envS : Source.Env) (envD : Dest.Env) (s : So
   · exact hinds8
 
 
+/-! ## The closing handshake, from any state in which the sender has sent everything -/
+
+/-- sender of an acknowledged transfer that has sent Metadata, all File Data and the EOF -/
+structure SentAllS (s : Source.SrcSt) (req : Source.PutReq) (src : String) (F : List UInt8) (seg : Nat)
+    (conf : Hdr) (rc : RemoteCfg) (tid : Tid) : Prop where
+  hbusy : s.state = .busy
+  hqueue : s.queue = []
+  hreq : s.putReq = some req
+  hsrc : req.src = some src
+  hfile : s.fs.get src = some (.file F)
+  hseg : s.p.segmentLen = seg
+  hprog : s.p.progress = F.length
+  hconf : s.p.conf = conf
+  hrc : s.p.remoteCfg = some rc
+  htid : s.p.tid = some tid
+
+theorem WaitingFinS.sentAll {s : Source.SrcSt} {req src F seg conf rc tid}
+    (h : WaitingFinS s req src F seg conf rc tid) : SentAllS s req src F seg conf rc tid :=
+  ⟨h.hbusy, h.hqueue, h.hreq, h.hsrc, h.hfile, h.hseg, h.hprog, h.hconf, h.hrc, h.htid⟩
+
+/-- **Finished PDU at the sender, in any of the steps in which it can arrive**: while the sender
+still waits for the ACK of its EOF (that ACK was lost), while it waits for the Finished PDU, or
+while it is in its retransmission step.  It is recorded and acknowledged with exactly one
+ACK (Finished). -/
+theorem C03_sender_finished_any (env : Source.Env) (s : Source.SrcSt) (rc : RemoteCfg) (h : Hdr)
+    (fp : FinishedParams) (req : Source.PutReq)
+    (ha : AdmissibleS env s rc h) (hb : s.state = .busy)
+    (hstep : s.step = .WAITING_FOR_EOF_ACK ∨ s.step = .WAITING_FOR_FINISHED ∨
+      (s.step = .RETRANSMITTING ∧ s.stepBefore = some .WAITING_FOR_FINISHED))
+    (hq : s.queue = []) (hreq : s.putReq = some req) :
+    Source.stateMachine env (some (.fin h fp)) s = .ok () (afterFinS (waitFinS s) fp) := by
+  rcases hstep with hs | hs | ⟨hs, hsb⟩
+  · msimp [Source.stateMachine, Source.checkInsertedPacket, Pdu.hdr, ha.hdir, ha.hsrc, ha.hrc, ha.hdst, ha.hseq,
+      Pdu.kind, Route.getPacketDestination, ha.hmode, hs, hb, Source.fsmNonIdle,
+      Source.fsmAdvancementAfterPacketsWereSent, hq, hreq, Source.fsmFromSendingFileData, Source.fsmFromSendingEof,
+      Source.fsmFromWaitingForEofAck, Source.handleWaitingForAck,
+      Source.fsmFromWaitingForFinished, Source.handleWaitForFinish, Source.transmissionMode,
+      Source.handleRetransmission, Source.modP, Source.getP, Source.addPacket,
+      Source.fsmFromNoticeOfCompletion, finSrcP, afterFinS, waitFinS]
+  · have := C02_source_finished env s rc h fp req ha hb hs hq hreq
+    rw [this]
+    simp [afterFinS, waitFinS, hs]
+  · exact C03_sender_finished_after_retransmission env s rc h fp req ha hb hs hsb hq hreq
+
+/-- **The closing handshake.**  The receiver has everything stored and has acknowledged the EOF; the
+sender has sent everything (whether or not it has seen the ACK of its EOF).  The receiver's next call
+verifies and emits the Finished PDU; the sender records and acknowledges it; the receiver goes idle
+on the ACK; the sender reports to its user on the next call and goes idle. -/
+theorem C03_closing (cfgS cfgD : LocalCfg) (s4 : Source.SrcSt) (dA : DestSt) (req : Source.PutReq)
+    (src dst : String) (F crc : List UInt8) (seg : Nat) (conf : Hdr) (rcS rcD : RemoteCfg) (tid : Tid)
+    (cksN t1 t2 t3 t4 : Nat)
+    (hS : SentAllS s4 req src F seg conf rcS tid)
+    (hstep : s4.step = .WAITING_FOR_EOF_ACK ∨ s4.step = .WAITING_FOR_FINISHED ∨
+      (s4.step = .RETRANSMITTING ∧ s4.stepBefore = some .WAITING_FOR_FINISHED))
+    (hA : Acked dA dst F crc rcD ⟨conf.src, conf.seq⟩ cksN
+      ⟨.toSend, conf.mode, conf.crc, conf.large, conf.src, conf.dst, conf.seq⟩)
+    (ha : AdmissibleA ⟨cfgD, t3⟩ rcD { conf with dir := .toRecv })
+    (hsrcv : conf.src.val = cfgS.entityId.val) (hdstv : conf.dst.val = rcS.entityId.val)
+    (hackD : rcD.ackMs ≠ 0)
+    (hver : cksN = 15 ∨ Fs.calcChecksum dA.fs (Checksum.CksType.ofNat cksN) dst F.length 4096 = .ok crc) :
+    let cd : Hdr := ⟨.toSend, conf.mode, conf.crc, conf.large, conf.src, conf.dst, conf.seq⟩
+    let fpOk : FinishedParams := ⟨ccNoError, dcComplete, fsRetained, none⟩
+    ∃ d4 s5 d5 s6,
+      Dest.stateMachine ⟨cfgD, t1⟩ none dA = .ok () d4 ∧ d4.queue = [.fin cd fpOk] ∧
+      Source.stateMachine ⟨cfgS, t2⟩ (some (.fin cd fpOk)) s4 = .ok () s5 ∧
+      s5.queue = [Source.mkAck conf dtFinished ccNoError tsActive] ∧
+      Dest.stateMachine ⟨cfgD, t3⟩ (some (Source.mkAck conf dtFinished ccNoError tsActive)) (drained d4) = .ok () d5 ∧
+      Source.stateMachine ⟨cfgS, t4⟩ none (Source.C07.drained s5) = .ok () s6 ∧
+      s6.state = .idle ∧ d5.state = .idle ∧ s6.queue = [] ∧ d5.queue = [] ∧
+      d5.fs = dA.fs ∧ s6.fs = s4.fs ∧ d5.flts = dA.flts ∧ s6.flts = s4.flts ∧
+      s6.inds.filter isFinished = s4.inds.filter isFinished ++
+        (if cfgS.indFinished then [.finished (some tid) fpOk] else []) ∧
+      d5.inds.filter isFinished = dA.inds.filter isFinished ++
+        (if cfgD.indFinished then [.finished (some ⟨conf.src, conf.seq⟩) fpOk] else []) := by
+  intro cd fpOk
+  have hmodeS : conf.mode = .ack := hA.hmode
+  have hv := C02_verify_ack ⟨cfgD, t1⟩ dA dst F crc rcD _ cksN _ hA hackD hver
+  have hadm : AdmissibleS ⟨cfgS, t2⟩ s4 rcS cd :=
+    { hdir := rfl, hsrc := hsrcv, hrc := hS.hrc, hdst := hdstv,
+      hseq := by rw [hS.hconf], hmode := by rw [hS.hconf]; exact hmodeS }
+  have h5 := C03_sender_finished_any ⟨cfgS, t2⟩ s4 rcS cd fpOk req hadm hS.hbusy hstep hS.hqueue hS.hreq
+  have hfa := C02_finished_acked ⟨cfgD, t3⟩ (drained (afterVerifyA ⟨cfgD, t1⟩ dA ⟨conf.src, conf.seq⟩ rcD))
+    rcD { conf with dir := .toRecv } ccNoError tsActive ha hA.hbusy rfl rfl
+    (by simp [drained, afterVerifyA, finP, hA.hconf]; exact hmodeS)
+  have h6 := C02_source_completion ⟨cfgS, t4⟩ (Source.C07.drained (afterFinS (waitFinS s4) fpOk)) fpOk tid req
+    hS.hbusy rfl rfl hS.hreq rfl hS.htid
+  refine ⟨_, _, idleOf (drained (afterVerifyA ⟨cfgD, t1⟩ dA ⟨conf.src, conf.seq⟩ rcD)), _, hv, ?_, h5, ?_, ?_, h6, rfl, rfl, rfl, rfl, rfl, rfl, rfl, rfl, ?_, ?_⟩
+  · simp [afterVerifyA, Dest.mkFin, hA.hconf, cd, fpOk]
+  · show [Source.mkAck s4.p.conf dtFinished fpOk.cond tsActive] = _
+    rw [hS.hconf]
+  · simpa [Source.mkAck, dtFinished, idleOf] using hfa
+  · simp only [Source.C07.drained, afterFinS, waitFinS, List.filter_append]
+    cases cfgS.indFinished <;> simp [isFinished]
+  · simp only [idleOf, drained, afterVerifyA, List.filter_append]
+    cases cfgD.indFinished <;> simp [isFinished, fpOk]
+
+/-! ### the two runs up to the EOF -/
+
+open Source.C07 Source.C19 in
+/-- the sender's run up to and including the EOF, with the resulting state -/
+theorem C03_sender_run_to_eof (envS : Source.Env) (s : Source.SrcSt)
+    (req : Source.PutReq) (rcS : RemoteCfg) (src dst : String) (F crc : List UInt8) (seg k : Nat)
+    (hst : s.state = .busy) (hstep : s.step = .IDLE) (hq : s.queue = []) (hreq : s.putReq = some req)
+    (hpmo : s.p.metadataOnly = false) (hsrc : req.src = some src) (hdst : req.dst = some dst)
+    (hfile : s.fs.get src = some (.file F)) (hF : F ≠ []) (hprog : s.p.progress = 0)
+    (hrc : s.p.remoteCfg = some rcS) (hbits : s.prov.bits = 8 ∨ s.prov.bits = 16 ∨ s.prov.bits = 32)
+    (hseg : Source.segLenOf rcS (startConf envS req rcS s (decide (F.length > 4294967295))) = some seg)
+    (hseg0 : 0 < seg) (hmode : s.p.conf.mode = .ack) (hct : s.p.checkTimer = none)
+    (hk : (k - 1) * seg < F.length ∧ F.length ≤ k * seg)
+    (hcks : Checksum.calcChecksum (Checksum.CksType.ofNat rcS.cks) F F.length seg = .ok crc)
+    (hnull : Checksum.CksType.ofNat rcS.cks ≠ .null) (hlen : crc.length = 4) (hack : rcS.ackMs ≠ 0) :
+    let conf := startConf envS req rcS s (decide (F.length > 4294967295))
+    let tid : Tid := ⟨envS.cfg.entityId, ⟨s.prov.next, s.prov.bits / 8⟩⟩
+    ∃ s3,
+      rounds envS (1 + k + 1) s = some
+        ([Source.mkMd conf s.p.closure rcS.cks F.length (some src) (some dst) (some (req.msgs.getD []))] ++
+          (List.range k).map (tile conf F seg 0) ++ [Source.mkEof conf ccNoError crc F.length], s3) ∧
+      SentAllS s3 req src F seg conf rcS tid ∧ s3.step = .WAITING_FOR_EOF_ACK ∧
+      s3.p.ackTimer = some ⟨envS.now, rcS.ackMs⟩ ∧ s3.p.ackCounter = 0 ∧ s3.p.fileSize = F.length ∧
+      s3.p.metadataOnly = false ∧ s3.p.condCodeEof = some ccNoError ∧ s3.p.checkTimer = none ∧
+      s3.fs = s.fs ∧ s3.flts = s.flts ∧ s3.inds.filter isFinished = s.inds.filter isFinished := by
+  intro conf tid
+  have hk1 : 1 ≤ k := by
+    rcases Nat.eq_zero_or_pos k with h0 | h0
+    · subst h0
+      have : F.length = 0 := by have := hk.2; omega
+      exact absurd (List.eq_nil_of_length_eq_zero this) hF
+    · exact h0
+  obtain ⟨hcall1, hS1⟩ := C07_metadata_call envS s req rcS src dst F seg hst hstep hq hreq hpmo hsrc hdst hfile hF
+    hprog hrc hbits hseg hseg0
+  obtain ⟨s2, hr2, hp2, hc2, hsg2, hst2, hS2, hFr2⟩ := C07_stream_tiles envS req src F k _ hS1
+    (Or.inr (by simp only [Source.C07.drained, afterMetadata, hprog, Nat.zero_add]; exact hk.1))
+  have hstep2 : s2.step = .SENDING_FILE_DATA := hst2.resolve_left (by omega)
+  have hprog2 : s2.p.progress = s2.p.fileSize := by
+    rw [hp2, hS2.hsize]; simp only [Source.C07.drained, afterMetadata, hprog, Nat.zero_add]
+    exact Nat.min_eq_left hk.2
+  simp only [Frame] at hFr2
+  obtain ⟨f1, f2, f3, f4, f5, f6, f7, f8, f9, f10, f11, f12, f13, f14, f15, f16⟩ := hFr2
+  have hmode2 : s2.p.conf.mode = .ack := by
+    rw [hc2]; simp [Source.C07.drained, afterMetadata, startConf, hmode]
+  have hcall3 := C07_eof_call_ack envS s2 req rcS src F crc tid hS2.hbusy hstep2 hS2.hqueue hS2.hreq hS2.hsrc
+    hS2.hnotMo hS2.hfile hS2.hsize hprog2 (by rw [f1]; simp [Source.C07.drained, afterMetadata, hrc])
+    (by rw [f2]; simp [Source.C07.drained, afterMetadata, tid])
+    (by rw [hsg2]; simpa [Source.C07.drained, afterMetadata] using hcks) hnull hlen hack hmode2
+  let s3 := Source.C07.drained (afterEofS envS (condS s2) rcS crc tid F.length)
+  have hconf3 : s3.p.conf = conf := by
+    show s2.p.conf = conf
+    rw [hc2]; simp [Source.C07.drained, afterMetadata, conf]
+  have hrc3 : s3.p.remoteCfg = some rcS := by
+    show s2.p.remoteCfg = some rcS
+    rw [f1]; simp [Source.C07.drained, afterMetadata, hrc]
+  have hrun : rounds envS (1 + k + 1) s = some
+      ([Source.mkMd conf s.p.closure rcS.cks F.length (some src) (some dst) (some (req.msgs.getD []))] ++
+        (List.range k).map (tile conf F seg 0) ++ [Source.mkEof conf ccNoError crc F.length], s3) := by
+    rw [rounds_add envS (1 + k) 1 s, rounds_add envS 1 k s]
+    simp only [rounds, round, hcall1, hr2, hcall3]
+    simp [Source.C07.drained, afterMetadata, afterEofS, hprog, hc2, conf, s3, condS]
+  refine ⟨s3, hrun, ?_, rfl, rfl, rfl, ?_, ?_, rfl, ?_, ?_, ?_, ?_⟩
+  · exact
+      { hbusy := hS2.hbusy, hqueue := rfl, hreq := hS2.hreq, hsrc := hS2.hsrc, hfile := hS2.hfile,
+        hseg := by show s2.p.segmentLen = seg; rw [hsg2]; simp [Source.C07.drained, afterMetadata],
+        hprog := by show s2.p.progress = F.length; rw [hprog2, hS2.hsize],
+        hconf := hconf3, hrc := hrc3,
+        htid := by show s2.p.tid = some tid; rw [f2]; simp [Source.C07.drained, afterMetadata, tid] }
+  · show s2.p.fileSize = F.length; exact hS2.hsize
+  · show s2.p.metadataOnly = false; exact hS2.hnotMo
+  · show s2.p.checkTimer = none; rw [f15]; simp [Source.C07.drained, afterMetadata, hct]
+  · simp [Source.C07.drained, afterEofS, condS, f6, afterMetadata, s3]
+  · simp [Source.C07.drained, afterEofS, condS, f5, afterMetadata, s3]
+  · simp only [Source.C07.drained, afterEofS, condS, s3, f4, afterMetadata, List.filter_append]
+    cases envS.cfg.indEofSent <;> simp [isFinished]
+
+/-- the receiver takes Metadata and all tiles: everything is stored -/
+theorem C03_receiver_takes_all_data (envD : Dest.Env) (d0 : DestSt) (conf : Hdr) (rcD : RemoteCfg) (closure : Bool)
+    (cks : Nat) (src dst : String) (msgs : Option (List Msg)) (F : List UInt8) (seg k : Nat)
+    (hseg0 : 0 < seg) (hk : (k - 1) * seg < F.length ∧ F.length ≤ k * seg)
+    (ha : AdmissibleA envD rcD { conf with dir := .toRecv })
+    (hidle : d0.state = .idle) (hdq : d0.queue = []) (hdr : d0.numReady = 0) (hrej : d0.rejects = [])
+    (hfl : d0.flts = []) (hnd : Fs.isDir d0.fs dst = false)
+    (hok : (∃ old, d0.fs.get dst = some (.file old)) ∨
+           (Fs.exists' d0.fs dst = false ∧ Fs.parentIsDir d0.fs dst = true)) :
+    ∃ d2, feedPdus envD
+        ([Source.mkMd conf closure cks F.length (some src) (some dst) msgs] ++
+          (List.range k).map (Source.C07.tile conf F seg 0)) d0 = some d2 ∧
+      ReceivingA d2 dst F rcD ⟨conf.src, conf.seq⟩ cks
+        ⟨.toSend, conf.mode, conf.crc, conf.large, conf.src, conf.dst, conf.seq⟩ ∧
+      (∀ q, q ≠ dst → d2.fs.get q = d0.fs.get q) ∧
+      d2.inds.filter isFinished = d0.inds.filter isFinished := by
+  obtain ⟨hmd, hR1⟩ := C02_metadata_ack envD d0 { conf with dir := .toRecv } rcD closure cks F.length src dst
+    msgs ha hidle hdq hdr hrej hfl hnd hok
+  obtain ⟨d2, hfeed2, hR2, hother2, hfin2⟩ := receiver_takes_tiles_ack envD conf _ rcD _ cks dst F seg hseg0 ha k _
+    (Or.inr hk.1) hR1
+  rw [List.take_of_length_le hk.2] at hR2
+  refine ⟨d2, ?_, hR2, ?_, ?_⟩
+  · rw [feedPdus_append]
+    simp only [feedPdus, Source.mkMd, hmd, Option.bind, hfeed2]
+  · intro q hq'
+    rw [hother2 q hq']
+    simp [afterMdA, Fs.C17.get_set_other _ _ _ _ hq']
+  · rw [hfin2]; simp [afterMdA, isFinished]
+
+/-- the EOF at a receiver that has everything: acknowledged; afterwards (ACK retrieved) it is `Acked` -/
+theorem C03_receiver_eof (env : Dest.Env) (d2 : DestSt) (dst : String) (F crc : List UInt8) (rcD : RemoteCfg)
+    (t : Tid) (cks : Nat) (cd h : Hdr) (hR2 : ReceivingA d2 dst F rcD t cks cd) (ha : AdmissibleA env rcD h) :
+    ∃ d3, stateMachine env (some (.eof h ccNoError crc F.length none)) d2 = .ok () d3 ∧
+      d3.queue = [mkAck cd dtEof ccNoError tsActive] ∧ Acked (drained d3) dst F crc rcD t cks cd ∧
+      d3.fs = d2.fs ∧ d3.flts = d2.flts ∧ d3.inds.filter isFinished = d2.inds.filter isFinished := by
+  have heof := C02_eof_ack env d2 dst F crc rcD t cks cd h hR2 ha
+  refine ⟨_, heof, by simp [afterEofA, hR2.hconf], ?_, rfl, rfl, ?_⟩
+  · exact
+      { hbusy := hR2.hbusy, hstep := rfl, hready := rfl, hqueue := rfl, hconf := hR2.hconf, hmode := hR2.hmode,
+        hname := hR2.hname, hfile := hR2.hfile, hprog := hR2.hprog, hcrc := rfl, hrc := hR2.hrc, htid := hR2.htid,
+        hcks := hR2.hcks, hcancel := hR2.hcancel, hmo := hR2.hmo, hfin := hR2.hfin, htrk := hR2.htrk, hmm := hR2.hmm }
+  · simp only [afterEofA, List.filter_append]
+    cases env.cfg.indEofRecv <;> simp [isFinished]
+
+/-! ### the ACK (EOF) is lost -/
+
+open Source.C07 Source.C19 in
+/-- **End to end with the ACK (EOF) lost: the two models composed.**  Everything the sender emits
+reaches the receiver, the receiver's ACK (EOF) never reaches the sender.  The receiver's next call
+verifies and emits the Finished PDU; the sender — still waiting for the ACK of its EOF — takes the
+Finished PDU as the proof that the EOF arrived, records and acknowledges it; both go idle.  No timer
+has to expire.  Outcome as over a fault-free link. -/
+theorem C03_end_to_end_ack_eof_loss (envS : Source.Env) (envD : Dest.Env) (s : Source.SrcSt) (d0 : Dest.DestSt)
+    (req : Source.PutReq) (rcS rcD : RemoteCfg) (src dst : String) (F crc : List UInt8) (seg k : Nat)
+    (t1 t2 t3 t4 : Nat)
+    (hst : s.state = .busy) (hstep : s.step = .IDLE) (hq : s.queue = []) (hreq : s.putReq = some req)
+    (hpmo : s.p.metadataOnly = false) (hsrc : req.src = some src) (hdst : req.dst = some dst)
+    (hfile : s.fs.get src = some (.file F)) (hF : F ≠ []) (hprog : s.p.progress = 0)
+    (hrc : s.p.remoteCfg = some rcS) (hrcid : rcS.entityId.val = req.destId.val)
+    (hbits : s.prov.bits = 8 ∨ s.prov.bits = 16 ∨ s.prov.bits = 32)
+    (hseg : Source.segLenOf rcS (startConf envS req rcS s (decide (F.length > 4294967295))) = some seg)
+    (hseg0 : 0 < seg) (hmode : s.p.conf.mode = .ack) (hct : s.p.checkTimer = none)
+    (hk : (k - 1) * seg < F.length ∧ F.length ≤ k * seg)
+    (hcks : Checksum.calcChecksum (Checksum.CksType.ofNat rcS.cks) F F.length seg = .ok crc)
+    (hnull : Checksum.CksType.ofNat rcS.cks ≠ .null) (hlen : crc.length = 4) (hack : rcS.ackMs ≠ 0)
+    (ha : AdmissibleA envD rcD { startConf envS req rcS s (decide (F.length > 4294967295)) with dir := .toRecv })
+    (hackD : rcD.ackMs ≠ 0)
+    (hidle : d0.state = .idle) (hdq : d0.queue = []) (hdr : d0.numReady = 0) (hrej : d0.rejects = [])
+    (hfl : d0.flts = []) (hnd : Fs.isDir d0.fs dst = false)
+    (hok : (∃ old, d0.fs.get dst = some (.file old)) ∨
+           (Fs.exists' d0.fs dst = false ∧ Fs.parentIsDir d0.fs dst = true)) :
+    let conf := startConf envS req rcS s (decide (F.length > 4294967295))
+    let cd : Hdr := ⟨.toSend, conf.mode, conf.crc, conf.large, conf.src, conf.dst, conf.seq⟩
+    let fpOk : FinishedParams := ⟨ccNoError, dcComplete, fsRetained, none⟩
+    ∃ pdus s3 d3 d4 s5 d5 s6,
+      rounds envS (1 + k + 1) s = some (pdus, s3) ∧ feedPdus envD pdus d0 = some d3 ∧
+      d3.queue = [.ack cd dtEof ccNoError tsActive] ∧      -- this PDU is lost
+      Dest.stateMachine ⟨envD.cfg, t1⟩ none (drained d3) = .ok () d4 ∧ d4.queue = [.fin cd fpOk] ∧
+      Source.stateMachine ⟨envS.cfg, t2⟩ (some (.fin cd fpOk)) s3 = .ok () s5 ∧
+      s5.queue = [Source.mkAck conf dtFinished ccNoError tsActive] ∧
+      Dest.stateMachine ⟨envD.cfg, t3⟩ (some (Source.mkAck conf dtFinished ccNoError tsActive)) (drained d4) = .ok () d5 ∧
+      Source.stateMachine ⟨envS.cfg, t4⟩ none (Source.C07.drained s5) = .ok () s6 ∧
+      s6.state = .idle ∧ d5.state = .idle ∧ s6.queue = [] ∧ d5.queue = [] ∧
+      d5.fs.get dst = some (.file F) ∧ (∀ q, q ≠ dst → d5.fs.get q = d0.fs.get q) ∧ s6.fs = s.fs ∧
+      d5.flts = [] ∧ s6.flts = s.flts ∧
+      s6.inds.filter isFinished = s.inds.filter isFinished ++
+        (if envS.cfg.indFinished then [.finished (some ⟨envS.cfg.entityId, ⟨s.prov.next, s.prov.bits / 8⟩⟩) fpOk]
+         else []) ∧
+      d5.inds.filter isFinished = d0.inds.filter isFinished ++
+        (if envD.cfg.indFinished then [.finished (some ⟨conf.src, conf.seq⟩) fpOk] else []) := by
+  intro conf cd fpOk
+  have hsrcv : conf.src.val = envS.cfg.entityId.val := by simp [conf, startConf]
+  have hdstv : conf.dst.val = rcS.entityId.val := by simp [conf, startConf, hrcid]
+  obtain ⟨s3, hrun, hS3, hstep3, -, -, -, -, -, -, hfs3, hfl3, hin3⟩ :=
+    C03_sender_run_to_eof envS s req rcS src dst F crc seg k hst hstep hq hreq hpmo hsrc hdst hfile hF hprog hrc
+      hbits hseg hseg0 hmode hct hk hcks hnull hlen hack
+  obtain ⟨d2, hfeed2, hR2, hother2, hfin2⟩ := C03_receiver_takes_all_data envD d0 conf rcD s.p.closure rcS.cks src dst
+    (some (req.msgs.getD [])) F seg k hseg0 hk ha hidle hdq hdr hrej hfl hnd hok
+  obtain ⟨d3, heof, hq3, hA, hfs3d, hfl3d, hin3d⟩ := C03_receiver_eof envD d2 dst F crc rcD _ rcS.cks cd
+    { conf with dir := .toRecv } hR2 ha
+  have hver : rcS.cks = 15 ∨ Fs.calcChecksum (drained d3).fs (Checksum.CksType.ofNat rcS.cks) dst F.length 4096 = .ok crc := by
+    right
+    have := Checksum.C09.C09_chunk_length_irrelevant (Checksum.CksType.ofNat rcS.cks) F F.length seg 4096
+      (by omega) (by omega)
+    have hf : (drained d3).fs.get dst = some (.file F) := hA.hfile
+    simp [Fs.calcChecksum, hnull, hf, ← this, hcks]
+  obtain ⟨d4, s5, d5, s6, hv, hq4, h5, hq5, hd5, h6, hi6, hi5, hq6, hq5', hfs5, hfs6, hfl5, hfl6, hin6, hin5⟩ :=
+    C03_closing envS.cfg envD.cfg s3 (drained d3) req src dst F crc seg conf rcS rcD _ rcS.cks t1 t2 t3 t4
+      hS3 (Or.inl hstep3) hA ⟨rfl, ha.hdst, ha.hsrc, ha.hmode⟩ hsrcv hdstv hackD hver
+  have hfeed : feedPdus envD
+      ([Source.mkMd conf s.p.closure rcS.cks F.length (some src) (some dst) (some (req.msgs.getD []))] ++
+        (List.range k).map (tile conf F seg 0) ++ [Source.mkEof conf ccNoError crc F.length]) d0 = some d3 := by
+    rw [feedPdus_append, hfeed2]
+    simp only [Option.bind, feedPdus, Source.mkEof, heof]
+  refine ⟨_, s3, d3, d4, s5, d5, s6, hrun, hfeed, ?_, hv, hq4, h5, hq5, hd5, h6, hi6, hi5, hq6, hq5', ?_, ?_, ?_, ?_, ?_,
+    ?_, ?_⟩
+  · simpa [Dest.mkAck, dtEof, dtFinished, cd] using hq3
+  · rw [hfs5]; exact hA.hfile
+  · intro q hq'
+    rw [hfs5]; show d3.fs.get q = _
+    rw [hfs3d, hother2 q hq']
+  · rw [hfs6, hfs3]
+  · rw [hfl5]; show d3.flts = []
+    rw [hfl3d]; exact hR2.hflts
+  · rw [hfl6, hfl3]
+  · rw [hin6, hin3]
+  · rw [hin5]; show d3.inds.filter isFinished ++ _ = _
+    rw [hin3d, hfin2]
+
+/-! ### the EOF is lost -/
+
+/-- the call in which the sender's positive ACK timer expired (below the limit): exactly one EOF PDU,
+identical to the first one -/
+theorem C03_sender_eof_expiry_call (env : Source.Env) (s : Source.SrcSt) (t : Timer) (rc : RemoteCfg)
+    (req : Source.PutReq) (src : String) (F cks : List UInt8) (tid : Tid)
+    (hb : s.state = .busy) (hstep : s.step = .WAITING_FOR_EOF_ACK) (hq : s.queue = [])
+    (ht : s.p.ackTimer = some t) (hrc : s.p.remoteCfg = some rc) (hexp : t.timedOut env.now = true)
+    (hlim : s.p.ackCounter + 1 < rc.ackLim)
+    (hreq : s.putReq = some req) (hsrc : req.src = some src) (hmo : s.p.metadataOnly = false)
+    (hfile : s.fs.get src = some (.file F)) (hnull : Checksum.CksType.ofNat rc.cks ≠ .null)
+    (hcks : Checksum.calcChecksum (Checksum.CksType.ofNat rc.cks) F s.p.fileSize s.p.segmentLen = .ok cks)
+    (hlen : cks.length = 4) (hcond : s.p.condCodeEof = some ccNoError) (htid : s.p.tid = some tid) :
+    Source.stateMachine env none s =
+      .ok () { s with p := C04.bumpSrcP s.p env.now t.timeout (s.p.ackCounter + 1),
+                      queue := [Source.mkEof s.p.conf ccNoError cks s.p.progress],
+                      numReady := s.numReady + 1,
+                      inds := s.inds ++ (if env.cfg.indEofSent then [Ind.eofSent tid] else []) } := by
+  have hpos := C04.C04_source_expiry_resends_exact env s t rc req src F cks ccNoError tid ht hrc hexp hlim hreq hsrc hmo
+    hfile hnull hcks hlen hcond htid
+  rw [hq, List.nil_append] at hpos
+  msimp [Source.stateMachine, hb, Source.fsmNonIdle, Source.fsmAdvancementAfterPacketsWereSent, hq, hstep, hreq,
+    Source.fsmFromSendingFileData, Source.fsmFromSendingEof, Source.fsmFromWaitingForEofAck,
+    Source.handleWaitingForAck, Source.handleRetransmission, hpos,
+    Source.fsmFromWaitingForFinished, Source.fsmFromNoticeOfCompletion, C04.bumpSrcP]
+
+def afterExpiryS (s : Source.SrcSt) (now ms : Nat) (eof : Pdu) (ind : List Ind) : Source.SrcSt :=
+  { s with p := C04.bumpSrcP s.p now ms (s.p.ackCounter + 1), queue := [eof],
+           numReady := s.numReady + 1, inds := s.inds ++ ind }
+
+open Source.C07 Source.C19 in
+/-- **End to end with the EOF PDU lost: the two models composed.**  Metadata and all File Data reach
+the receiver, the EOF does not.  When the sender's positive ACK timer has expired (`tE` is at least
+the ACK interval after the EOF call; the limit is at least 2) its next call re-sends exactly the same
+EOF PDU; this one arrives, is acknowledged, and the transfer closes as over a fault-free link. -/
+theorem C03_end_to_end_eof_loss (envS : Source.Env) (envD : Dest.Env) (s : Source.SrcSt) (d0 : Dest.DestSt)
+    (req : Source.PutReq) (rcS rcD : RemoteCfg) (src dst : String) (F crc : List UInt8) (seg k : Nat)
+    (tE tA t1 t2 t3 t4 tD : Nat)
+    (hst : s.state = .busy) (hstep : s.step = .IDLE) (hq : s.queue = []) (hreq : s.putReq = some req)
+    (hpmo : s.p.metadataOnly = false) (hsrc : req.src = some src) (hdst : req.dst = some dst)
+    (hfile : s.fs.get src = some (.file F)) (hF : F ≠ []) (hprog : s.p.progress = 0)
+    (hrc : s.p.remoteCfg = some rcS) (hrcid : rcS.entityId.val = req.destId.val)
+    (hbits : s.prov.bits = 8 ∨ s.prov.bits = 16 ∨ s.prov.bits = 32)
+    (hseg : Source.segLenOf rcS (startConf envS req rcS s (decide (F.length > 4294967295))) = some seg)
+    (hseg0 : 0 < seg) (hmode : s.p.conf.mode = .ack) (hct : s.p.checkTimer = none)
+    (hk : (k - 1) * seg < F.length ∧ F.length ≤ k * seg)
+    (hcks : Checksum.calcChecksum (Checksum.CksType.ofNat rcS.cks) F F.length seg = .ok crc)
+    (hnull : Checksum.CksType.ofNat rcS.cks ≠ .null) (hlen : crc.length = 4) (hack : rcS.ackMs ≠ 0)
+    (hexp : (⟨envS.now, rcS.ackMs⟩ : Timer).timedOut tE = true) (hlim : 1 < rcS.ackLim)
+    (ha : AdmissibleA envD rcD { startConf envS req rcS s (decide (F.length > 4294967295)) with dir := .toRecv })
+    (hackD : rcD.ackMs ≠ 0)
+    (hidle : d0.state = .idle) (hdq : d0.queue = []) (hdr : d0.numReady = 0) (hrej : d0.rejects = [])
+    (hfl : d0.flts = []) (hnd : Fs.isDir d0.fs dst = false)
+    (hok : (∃ old, d0.fs.get dst = some (.file old)) ∨
+           (Fs.exists' d0.fs dst = false ∧ Fs.parentIsDir d0.fs dst = true)) :
+    let conf := startConf envS req rcS s (decide (F.length > 4294967295))
+    let cd : Hdr := ⟨.toSend, conf.mode, conf.crc, conf.large, conf.src, conf.dst, conf.seq⟩
+    let fpOk : FinishedParams := ⟨ccNoError, dcComplete, fsRetained, none⟩
+    let eof := Source.mkEof conf ccNoError crc F.length
+    ∃ pdus s3 d2 s3' d3 s4 d4 s5 d5 s6,
+      -- the sender's run; everything but the last PDU (the EOF) reaches the receiver
+      rounds envS (1 + k + 1) s = some (pdus, s3) ∧ pdus.getLast? = some eof ∧
+      feedPdus envD pdus.dropLast d0 = some d2 ∧ d2.queue = [] ∧
+      -- the timer expires: the same EOF again; it arrives and is acknowledged
+      Source.stateMachine ⟨envS.cfg, tE⟩ none s3 = .ok () s3' ∧ s3'.queue = [eof] ∧
+      Dest.stateMachine ⟨envD.cfg, tD⟩ (some eof) d2 = .ok () d3 ∧ d3.queue = [.ack cd dtEof ccNoError tsActive] ∧
+      Source.stateMachine ⟨envS.cfg, tA⟩ (some (.ack cd dtEof ccNoError tsActive)) (Source.C07.drained s3') = .ok () s4 ∧
+      s4.queue = [] ∧
+      -- closing handshake
+      Dest.stateMachine ⟨envD.cfg, t1⟩ none (drained d3) = .ok () d4 ∧ d4.queue = [.fin cd fpOk] ∧
+      Source.stateMachine ⟨envS.cfg, t2⟩ (some (.fin cd fpOk)) s4 = .ok () s5 ∧
+      s5.queue = [Source.mkAck conf dtFinished ccNoError tsActive] ∧
+      Dest.stateMachine ⟨envD.cfg, t3⟩ (some (Source.mkAck conf dtFinished ccNoError tsActive)) (drained d4) = .ok () d5 ∧
+      Source.stateMachine ⟨envS.cfg, t4⟩ none (Source.C07.drained s5) = .ok () s6 ∧
+      s6.state = .idle ∧ d5.state = .idle ∧ s6.queue = [] ∧ d5.queue = [] ∧
+      d5.fs.get dst = some (.file F) ∧ (∀ q, q ≠ dst → d5.fs.get q = d0.fs.get q) ∧ s6.fs = s.fs ∧
+      d5.flts = [] ∧ s6.flts = s.flts ∧
+      s6.inds.filter isFinished = s.inds.filter isFinished ++
+        (if envS.cfg.indFinished then [.finished (some ⟨envS.cfg.entityId, ⟨s.prov.next, s.prov.bits / 8⟩⟩) fpOk]
+         else []) ∧
+      d5.inds.filter isFinished = d0.inds.filter isFinished ++
+        (if envD.cfg.indFinished then [.finished (some ⟨conf.src, conf.seq⟩) fpOk] else []) := by
+  intro conf cd fpOk eof
+  have hsrcv : conf.src.val = envS.cfg.entityId.val := by simp [conf, startConf]
+  have hdstv : conf.dst.val = rcS.entityId.val := by simp [conf, startConf, hrcid]
+  obtain ⟨s3, hrun, hS3, hstep3, htm3, hcnt3, hsz3, hmo3, hcond3, hct3, hfs3, hfl3, hin3⟩ :=
+    C03_sender_run_to_eof envS s req rcS src dst F crc seg k hst hstep hq hreq hpmo hsrc hdst hfile hF hprog hrc
+      hbits hseg hseg0 hmode hct hk hcks hnull hlen hack
+  obtain ⟨d2, hfeed2, hR2, hother2, hfin2⟩ := C03_receiver_takes_all_data envD d0 conf rcD s.p.closure rcS.cks src dst
+    (some (req.msgs.getD [])) F seg k hseg0 hk ha hidle hdq hdr hrej hfl hnd hok
+  -- the expiry
+  have hE := C03_sender_eof_expiry_call ⟨envS.cfg, tE⟩ s3 ⟨envS.now, rcS.ackMs⟩ rcS req src F crc
+    ⟨envS.cfg.entityId, ⟨s.prov.next, s.prov.bits / 8⟩⟩ hS3.hbusy hstep3 hS3.hqueue htm3 hS3.hrc hexp
+    (by rw [hcnt3]; exact hlim) hS3.hreq hS3.hsrc hmo3 hS3.hfile hnull (by rw [hsz3, hS3.hseg]; exact hcks) hlen hcond3
+    hS3.htid
+  rw [hS3.hconf, hS3.hprog] at hE
+  -- the EOF at the receiver
+  obtain ⟨d3, heof, hq3, hA, hfs3d, hfl3d, hin3d⟩ := C03_receiver_eof ⟨envD.cfg, tD⟩ d2 dst F crc rcD _ rcS.cks cd
+    { conf with dir := .toRecv } hR2 ⟨rfl, ha.hdst, ha.hsrc, ha.hmode⟩
+  -- the ACK (EOF) at the sender
+  let s3' : Source.SrcSt := afterExpiryS s3 tE rcS.ackMs eof
+    (if envS.cfg.indEofSent then [Ind.eofSent ⟨envS.cfg.entityId, ⟨s.prov.next, s.prov.bits / 8⟩⟩] else [])
+  have hadm : AdmissibleS ⟨envS.cfg, tA⟩ (Source.C07.drained s3') rcS cd :=
+    { hdir := rfl, hsrc := hsrcv, hrc := hS3.hrc, hdst := hdstv,
+      hseq := by show cd.seq.val = s3.p.conf.seq.val; rw [hS3.hconf],
+      hmode := by show s3.p.conf.mode = .ack; rw [hS3.hconf]; simp [conf, startConf, hmode] }
+  have h4 := C02_source_eof_acked ⟨envS.cfg, tA⟩ (Source.C07.drained s3') rcS cd ccNoError tsActive req hadm hS3.hbusy
+    hstep3 rfl hS3.hreq hct3
+  have hS4 : SentAllS { Source.C07.drained s3' with step := .WAITING_FOR_FINISHED } req src F seg conf rcS
+      ⟨envS.cfg.entityId, ⟨s.prov.next, s.prov.bits / 8⟩⟩ :=
+    ⟨hS3.hbusy, rfl, hS3.hreq, hS3.hsrc, hS3.hfile, hS3.hseg, hS3.hprog, hS3.hconf, hS3.hrc, hS3.htid⟩
+  have hver : rcS.cks = 15 ∨ Fs.calcChecksum (drained d3).fs (Checksum.CksType.ofNat rcS.cks) dst F.length 4096 = .ok crc := by
+    right
+    have := Checksum.C09.C09_chunk_length_irrelevant (Checksum.CksType.ofNat rcS.cks) F F.length seg 4096
+      (by omega) (by omega)
+    have hf : (drained d3).fs.get dst = some (.file F) := hA.hfile
+    simp [Fs.calcChecksum, hnull, hf, ← this, hcks]
+  obtain ⟨d4, s5, d5, s6, hv, hq4, h5, hq5, hd5, h6, hi6, hi5, hq6, hq5', hfs5, hfs6, hfl5, hfl6, hin6, hin5⟩ :=
+    C03_closing envS.cfg envD.cfg _ (drained d3) req src dst F crc seg conf rcS rcD _ rcS.cks t1 t2 t3 t4
+      hS4 (Or.inr (Or.inl rfl)) hA ⟨rfl, ha.hdst, ha.hsrc, ha.hmode⟩ hsrcv hdstv hackD hver
+  refine ⟨_, s3, d2, s3', d3, _, d4, s5, d5, s6, hrun, ?_, ?_, hR2.hqueue, hE, rfl, heof, ?_, h4, rfl, hv, hq4, h5, hq5, hd5,
+    h6, hi6, hi5, hq6, hq5', ?_, ?_, ?_, ?_, ?_, ?_, ?_⟩
+  · rw [List.getLast?_concat]
+  · rw [List.dropLast_concat]; exact hfeed2
+  · simpa [Dest.mkAck, dtEof, dtFinished, cd] using hq3
+  · rw [hfs5]; exact hA.hfile
+  · intro q hq'
+    rw [hfs5]; show d3.fs.get q = _
+    rw [hfs3d, hother2 q hq']
+  · rw [hfs6]; exact hfs3
+  · rw [hfl5]; show d3.flts = []
+    rw [hfl3d]; exact hR2.hflts
+  · rw [hfl6]; exact hfl3
+  · rw [hin6]
+    simp only [Source.C07.drained, s3', afterExpiryS, List.filter_append, hin3]
+    cases envS.cfg.indEofSent <;> simp [isFinished, fpOk]
+  · rw [hin5]; show d3.inds.filter isFinished ++ _ = _
+    rw [hin3d, hfin2]
+
+/-! ### the Finished PDU or its ACK is lost -/
+
+def afterFinExpiry (d : DestSt) (now ms : Nat) : DestSt :=
+  { d with queue := [mkFin d.p.conf d.p.fin], numReady := 1,
+           p := { d.p with ackTimer := some ⟨now, ms⟩, ackCounter := d.p.ackCounter + 1 } }
+
+/-- the call in which the receiver's positive ACK timer expired (below the limit): exactly one
+Finished PDU, identical to the first one -/
+theorem C03_receiver_finished_expiry_call (env : Dest.Env) (d : DestSt) (t : Timer) (rc : RemoteCfg)
+    (hb : d.state = .busy) (hstep : d.step = .WAITING_FOR_FINISHED_ACK) (hq : d.queue = []) (hr : d.numReady = 0)
+    (ht : d.p.ackTimer = some t) (hrc : d.p.remoteCfg = some rc) (hexp : t.timedOut env.now = true)
+    (hlim : d.p.ackCounter + 1 < rc.ackLim) :
+    stateMachine env none d = .ok () (afterFinExpiry d env.now t.timeout) := by
+  unfold stateMachine
+  generalize (stateMachineWith env none (stateMachineWith env none (throw Err.recursionError))) = rec
+  have hpos := C04.C04_dest_expiry_resends env d t rc rec ht hrc hexp hlim hr
+  rw [hq, List.nil_append] at hpos
+  msimp [stateMachineWith, hb, nonIdleFsm, fsmAdvancementAfterPacketsWereSent, hq, hstep,
+    fsmFromReceiving, fsmFromWaitingForMetadata, fsmFromCheckLimit, fsmFromWaitingForMissingData,
+    fsmFromTransferCompletion, fsmFromSendingFinishedPdu, fsmFromWaitingForFinishedAck,
+    handleWaitingForFinishedAck, hpos, afterFinExpiry]
+
+/-- **The closing handshake with the Finished PDU lost.**  As `C03_closing`, but the first Finished
+PDU never reaches the sender.  When the receiver's positive ACK timer has expired (limit at least 2)
+its next call re-sends exactly the same Finished PDU; that one is acknowledged and both go idle. -/
+theorem C03_closing_finished_lost (cfgS cfgD : LocalCfg) (s4 : Source.SrcSt) (dA : DestSt) (req : Source.PutReq)
+    (src dst : String) (F crc : List UInt8) (seg : Nat) (conf : Hdr) (rcS rcD : RemoteCfg) (tid : Tid)
+    (cksN t1 tE t2 t3 t4 : Nat)
+    (hS : SentAllS s4 req src F seg conf rcS tid)
+    (hstep : s4.step = .WAITING_FOR_EOF_ACK ∨ s4.step = .WAITING_FOR_FINISHED ∨
+      (s4.step = .RETRANSMITTING ∧ s4.stepBefore = some .WAITING_FOR_FINISHED))
+    (hA : Acked dA dst F crc rcD ⟨conf.src, conf.seq⟩ cksN
+      ⟨.toSend, conf.mode, conf.crc, conf.large, conf.src, conf.dst, conf.seq⟩)
+    (ha : AdmissibleA ⟨cfgD, t3⟩ rcD { conf with dir := .toRecv })
+    (hsrcv : conf.src.val = cfgS.entityId.val) (hdstv : conf.dst.val = rcS.entityId.val)
+    (hackD : rcD.ackMs ≠ 0)
+    (hexp : (⟨t1, rcD.ackMs⟩ : Timer).timedOut tE = true) (hlim : 1 < rcD.ackLim)
+    (hver : cksN = 15 ∨ Fs.calcChecksum dA.fs (Checksum.CksType.ofNat cksN) dst F.length 4096 = .ok crc) :
+    let cd : Hdr := ⟨.toSend, conf.mode, conf.crc, conf.large, conf.src, conf.dst, conf.seq⟩
+    let fpOk : FinishedParams := ⟨ccNoError, dcComplete, fsRetained, none⟩
+    ∃ d4 d4' s5 d5 s6,
+      Dest.stateMachine ⟨cfgD, t1⟩ none dA = .ok () d4 ∧ d4.queue = [.fin cd fpOk] ∧      -- lost
+      Dest.stateMachine ⟨cfgD, tE⟩ none (drained d4) = .ok () d4' ∧ d4'.queue = [.fin cd fpOk] ∧
+      Source.stateMachine ⟨cfgS, t2⟩ (some (.fin cd fpOk)) s4 = .ok () s5 ∧
+      s5.queue = [Source.mkAck conf dtFinished ccNoError tsActive] ∧
+      Dest.stateMachine ⟨cfgD, t3⟩ (some (Source.mkAck conf dtFinished ccNoError tsActive)) (drained d4') = .ok () d5 ∧
+      Source.stateMachine ⟨cfgS, t4⟩ none (Source.C07.drained s5) = .ok () s6 ∧
+      s6.state = .idle ∧ d5.state = .idle ∧ s6.queue = [] ∧ d5.queue = [] ∧
+      d5.fs = dA.fs ∧ s6.fs = s4.fs ∧ d5.flts = dA.flts ∧ s6.flts = s4.flts ∧
+      s6.inds.filter isFinished = s4.inds.filter isFinished ++
+        (if cfgS.indFinished then [.finished (some tid) fpOk] else []) ∧
+      d5.inds.filter isFinished = dA.inds.filter isFinished ++
+        (if cfgD.indFinished then [.finished (some ⟨conf.src, conf.seq⟩) fpOk] else []) := by
+  intro cd fpOk
+  have hmodeS : conf.mode = .ack := hA.hmode
+  have hv := C02_verify_ack ⟨cfgD, t1⟩ dA dst F crc rcD _ cksN _ hA hackD hver
+  have hE := C03_receiver_finished_expiry_call ⟨cfgD, tE⟩ (drained (afterVerifyA ⟨cfgD, t1⟩ dA ⟨conf.src, conf.seq⟩ rcD))
+    ⟨t1, rcD.ackMs⟩ rcD hA.hbusy rfl rfl rfl rfl hA.hrc hexp (by simpa [drained, afterVerifyA, finP] using hlim)
+  have hadm : AdmissibleS ⟨cfgS, t2⟩ s4 rcS cd :=
+    { hdir := rfl, hsrc := hsrcv, hrc := hS.hrc, hdst := hdstv,
+      hseq := by rw [hS.hconf], hmode := by rw [hS.hconf]; exact hmodeS }
+  have h5 := C03_sender_finished_any ⟨cfgS, t2⟩ s4 rcS cd fpOk req hadm hS.hbusy hstep hS.hqueue hS.hreq
+  have hfa := C02_finished_acked ⟨cfgD, t3⟩
+    (drained (afterFinExpiry (drained (afterVerifyA ⟨cfgD, t1⟩ dA ⟨conf.src, conf.seq⟩ rcD)) tE rcD.ackMs))
+    rcD { conf with dir := .toRecv } ccNoError tsActive ha hA.hbusy rfl rfl
+    (by simp [drained, afterFinExpiry, afterVerifyA, finP, hA.hconf]; exact hmodeS)
+  have h6 := C02_source_completion ⟨cfgS, t4⟩ (Source.C07.drained (afterFinS (waitFinS s4) fpOk)) fpOk tid req
+    hS.hbusy rfl rfl hS.hreq rfl hS.htid
+  refine ⟨_, _, _,
+    idleOf (drained (afterFinExpiry (drained (afterVerifyA ⟨cfgD, t1⟩ dA ⟨conf.src, conf.seq⟩ rcD)) tE rcD.ackMs)), _,
+    hv, ?_, hE, ?_, h5, ?_, ?_, h6, rfl, rfl, rfl, rfl, rfl, rfl, rfl, rfl, ?_, ?_⟩
+  · simp [afterVerifyA, Dest.mkFin, hA.hconf, cd, fpOk]
+  · simp [afterFinExpiry, drained, afterVerifyA, finP, Dest.mkFin, hA.hconf, cd, fpOk]
+  · show [Source.mkAck s4.p.conf dtFinished fpOk.cond tsActive] = _
+    rw [hS.hconf]
+  · simpa [Source.mkAck, dtFinished, idleOf] using hfa
+  · simp only [Source.C07.drained, afterFinS, waitFinS, List.filter_append]
+    cases cfgS.indFinished <;> simp [isFinished]
+  · simp only [idleOf, drained, afterFinExpiry, afterVerifyA, List.filter_append]
+    cases cfgD.indFinished <;> simp [isFinished, fpOk]
+
+/-- **The closing handshake with the ACK (Finished) lost.**  The sender acknowledges the Finished PDU
+and completes; its ACK never arrives.  When the receiver's positive ACK timer has expired it re-sends
+exactly the same Finished PDU; the sender has closed the transaction by then, so — as the property
+assumes — the surrounding entity answers with the ACK (Finished), on which the receiver goes idle. -/
+theorem C03_closing_finished_ack_lost (cfgS cfgD : LocalCfg) (s4 : Source.SrcSt) (dA : DestSt) (req : Source.PutReq)
+    (src dst : String) (F crc : List UInt8) (seg : Nat) (conf : Hdr) (rcS rcD : RemoteCfg) (tid : Tid)
+    (cksN t1 tE t2 t3 t4 : Nat)
+    (hS : SentAllS s4 req src F seg conf rcS tid)
+    (hstep : s4.step = .WAITING_FOR_EOF_ACK ∨ s4.step = .WAITING_FOR_FINISHED ∨
+      (s4.step = .RETRANSMITTING ∧ s4.stepBefore = some .WAITING_FOR_FINISHED))
+    (hA : Acked dA dst F crc rcD ⟨conf.src, conf.seq⟩ cksN
+      ⟨.toSend, conf.mode, conf.crc, conf.large, conf.src, conf.dst, conf.seq⟩)
+    (ha : AdmissibleA ⟨cfgD, t3⟩ rcD { conf with dir := .toRecv })
+    (hsrcv : conf.src.val = cfgS.entityId.val) (hdstv : conf.dst.val = rcS.entityId.val)
+    (hackD : rcD.ackMs ≠ 0)
+    (hexp : (⟨t1, rcD.ackMs⟩ : Timer).timedOut tE = true) (hlim : 1 < rcD.ackLim)
+    (hver : cksN = 15 ∨ Fs.calcChecksum dA.fs (Checksum.CksType.ofNat cksN) dst F.length 4096 = .ok crc) :
+    let cd : Hdr := ⟨.toSend, conf.mode, conf.crc, conf.large, conf.src, conf.dst, conf.seq⟩
+    let fpOk : FinishedParams := ⟨ccNoError, dcComplete, fsRetained, none⟩
+    let ackFin := Source.mkAck conf dtFinished ccNoError tsActive
+    ∃ d4 s5 s6 d4' d5,
+      Dest.stateMachine ⟨cfgD, t1⟩ none dA = .ok () d4 ∧ d4.queue = [.fin cd fpOk] ∧
+      Source.stateMachine ⟨cfgS, t2⟩ (some (.fin cd fpOk)) s4 = .ok () s5 ∧ s5.queue = [ackFin] ∧      -- lost
+      Source.stateMachine ⟨cfgS, t4⟩ none (Source.C07.drained s5) = .ok () s6 ∧ s6.state = .idle ∧ s6.queue = [] ∧
+      Dest.stateMachine ⟨cfgD, tE⟩ none (drained d4) = .ok () d4' ∧ d4'.queue = [.fin cd fpOk] ∧
+      Dest.stateMachine ⟨cfgD, t3⟩ (some ackFin) (drained d4') = .ok () d5 ∧
+      d5.state = .idle ∧ d5.queue = [] ∧
+      d5.fs = dA.fs ∧ s6.fs = s4.fs ∧ d5.flts = dA.flts ∧ s6.flts = s4.flts ∧
+      s6.inds.filter isFinished = s4.inds.filter isFinished ++
+        (if cfgS.indFinished then [.finished (some tid) fpOk] else []) ∧
+      d5.inds.filter isFinished = dA.inds.filter isFinished ++
+        (if cfgD.indFinished then [.finished (some ⟨conf.src, conf.seq⟩) fpOk] else []) := by
+  intro cd fpOk ackFin
+  obtain ⟨d4, d4', s5, d5, s6, h1, h2, h3, h4, h5, h6, h7, h8, h9, h10, h11, h12, h13, h14, h15, h16, h17, h18⟩ :=
+    C03_closing_finished_lost cfgS cfgD s4 dA req src dst F crc seg conf rcS rcD tid cksN t1 tE t2 t3 t4 hS hstep hA ha
+      hsrcv hdstv hackD hexp hlim hver
+  exact ⟨d4, s5, s6, d4', d5, h1, h2, h5, h6, h8, h9, h11, h3, h4, h7, h10, h12, h13, h14, h15, h16, h17, h18⟩
+
+
 end Cfdp.C03
 
 /-! ## the hypotheses of the composed theorems are satisfiable (non-vacuity) -/
@@ -1338,6 +1905,27 @@ example : True := by
     1 2 3 1 2
     rfl rfl rfl rfl rfl rfl rfl rfl (by decide) rfl rfl rfl (by decide) (by decide) (by decide) rfl rfl
     (by decide) (by decide +kernel) (by decide) rfl (by decide)
+    ⟨rfl, rfl, by decide, rfl⟩ (by decide)
+    rfl rfl rfl rfl rfl (by decide) (Or.inl ⟨[9], rfl⟩)
+  trivial
+
+/-- the hypotheses of `C03_end_to_end_ack_eof_loss` are satisfiable -/
+example : True := by
+  have h := C03_end_to_end_ack_eof_loss envS envD s d0 req rcS rcD "/a" "/b" F [71, 11, 153, 244] 2 3
+    1 2 3 4
+    rfl rfl rfl rfl rfl rfl rfl rfl (by decide) rfl rfl rfl (by decide) (by decide) (by decide) rfl rfl
+    (by decide) (by decide +kernel) (by decide) rfl (by decide)
+    ⟨rfl, rfl, by decide, rfl⟩ (by decide)
+    rfl rfl rfl rfl rfl (by decide) (Or.inl ⟨[9], rfl⟩)
+  trivial
+
+/-- the hypotheses of `C03_end_to_end_eof_loss` are satisfiable: the timer (1000 ms, started at 0)
+has expired at 1000, the limit is 3 -/
+example : True := by
+  have h := C03_end_to_end_eof_loss envS envD s d0 req rcS rcD "/a" "/b" F [71, 11, 153, 244] 2 3
+    1000 1001 1002 1003 1004 1005 1000
+    rfl rfl rfl rfl rfl rfl rfl rfl (by decide) rfl rfl rfl (by decide) (by decide) (by decide) rfl rfl
+    (by decide) (by decide +kernel) (by decide) rfl (by decide) (by decide) (by decide)
     ⟨rfl, rfl, by decide, rfl⟩ (by decide)
     rfl rfl rfl rfl rfl (by decide) (Or.inl ⟨[9], rfl⟩)
   trivial
